@@ -1,4 +1,5 @@
 mod common;
+mod c15;
 mod c16;
 mod c19;
 mod c20;
@@ -13,6 +14,7 @@ type ReplayFn = fn(&Value) -> Vec<Violation>;
 
 fn registry(id: &str) -> Option<(RunFn, ReplayFn)> {
     match id {
+        "C15" => Some((c15::run, c15::replay)),
         "C16" => Some((c16::run, c16::replay)),
         "C19" => Some((c19::run, c19::replay)),
         "C20" => Some((c20::run, c20::replay)),
